@@ -2,6 +2,7 @@ package keyfile
 
 import (
 	"crypto/rand"
+	"errors"
 	"os"
 
 	"github.com/aperturerobotics/bifrost/crypto"
@@ -34,6 +35,8 @@ func OpenOrWritePrivKey(le *logrus.Entry, privKeyPath string) (crypto.PrivKey, e
 			if le != nil {
 				le.Debug("wrote private key")
 			}
+		} else {
+			return nil, err
 		}
 	} else {
 		dat, err := os.ReadFile(privKeyPath)
@@ -43,6 +46,9 @@ func OpenOrWritePrivKey(le *logrus.Entry, privKeyPath string) (crypto.PrivKey, e
 		privKey, err = keypem.ParsePrivKeyPem(dat)
 		if err != nil {
 			return privKey, err
+		}
+		if privKey == nil {
+			return nil, errors.New("no private key found in key file")
 		}
 	}
 	return privKey, err
